@@ -19,7 +19,7 @@ driver: extract
 	cd ocaml && cp gen/model.ml gen/model.mli . && ocamlfind ocamlopt -w -a -o model_driver model.mli model.ml driver.ml
 
 harness:
-	cd harness && cp /repo/v8/go.sum . && go build -tags verif -o ../bin/vrun ./cmd/run && go build -o ../bin/vgen-diag ./cmd/gendiag && go build -o ../bin/vgen-access ./cmd/genaccess && go build -o ../bin/vgen-sites ./cmd/gensites && go build -tags verif -o ../bin/vgen-schemas ./cmd/gen
+	cd harness && cp /repo/v8/go.sum . && go build -tags verif -o ../bin/vrun ./cmd/run && go build -o ../bin/vgen-diag ./cmd/gendiag && go build -o ../bin/vgen-access ./cmd/genaccess && go build -o ../bin/vgen-sites ./cmd/gensites && go build -o ../bin/vgen-log ./cmd/genlog && go build -o ../bin/vgen-tables ./cmd/gentables && go build -tags verif -o ../bin/vgen-schemas ./cmd/gen
 
 clean:
 	cd coq && (test -f Makefile.coq && $(MAKE) -f Makefile.coq clean || true); rm -f coq/Makefile.coq coq/Makefile.coq.conf
